@@ -408,6 +408,9 @@ def to_z3(v, t):
         return to_json(v)
     if k == "opaque" and isinstance(v, VOpaque) and v.name == t.name:
         return v.z
+    if k == "opaque" and isinstance(v, VObj) and isinstance(v.fields.get("__id"), VOpaque) and v.fields["__id"].name == t.name:
+        # a collaborator object with a ghost identity: containers hold the identity
+        return v.fields["__id"].z
     if k in ("seq", "list", "deque"):
         if isinstance(v, VSeq):
             return v.z
